@@ -206,6 +206,16 @@ func node.walkPostOrder
 // ---- the exported type: invariant of every Tree reachable through the API
 type Tree(n) invariant n.compare != nil && iscmp(n.compare) && good(view(n.root)) && n.count == size(view(n.root))
 
+// constructors: an empty tree with the given comparator (NewOrdered: typ.Compare, which C20 proves to agree with the
+// built-in operators; that these form a total order on non-NaN values is Go semantics)
+func New
+  property C01
+  ensures result.compare == compare && result.root == nil && result.count == 0
+
+func NewOrdered
+  property C01
+  ensures result.compare != nil && result.root == nil && result.count == 0
+
 func Tree.Len
   property C01
   owns n.root
